@@ -237,6 +237,17 @@ def inventory(repo: str):
                 keys.append((fname, qual(n), ast.unparse(n.func.value), n.func.attr, key_text(n.args[0], n)))
             elif isinstance(n, ast.Compare) and len(n.ops) == 1 and isinstance(n.ops[0], (ast.In, ast.NotIn)) and is_cache(n.comparators[0]):
                 keys.append((fname, qual(n), ast.unparse(n.comparators[0]), "in", key_text(n.left, n)))
+            # memo kept as an ad-hoc attribute of an object (frozen dataclasses):
+            #   x.__dict__.get("_name")  /  object.__setattr__(x, "_name", v)   outside __init__/__post_init__
+            if isinstance(n, ast.Call) and isinstance(n.func, ast.Attribute) and n.func.attr == "get" and n.args \
+                    and isinstance(n.func.value, ast.Attribute) and n.func.value.attr == "__dict__" \
+                    and isinstance(n.args[0], ast.Constant) and isinstance(n.args[0].value, str):
+                keys.append((fname, qual(n), "attribute " + n.args[0].value, "get", "object " + ast.unparse(n.func.value.value)))
+            if isinstance(n, ast.Call) and ast.unparse(n.func) == "object.__setattr__" and len(n.args) == 3 \
+                    and isinstance(n.args[1], ast.Constant) and isinstance(n.args[1].value, str):
+                q = qual(n)
+                if not q.endswith(("__init__", "__post_init__")):
+                    keys.append((fname, q, "attribute " + n.args[1].value, "store", "object " + ast.unparse(n.args[0])))
     # the fields of the dataclass that serves as key of resolution_cache
     for fname, tree in trees:
         for node in ast.walk(tree):
